@@ -216,6 +216,33 @@ class Run:
         self.cov["tlc_runs"].append({k: res.get(k) for k in ("module", "cfg", "generated", "distinct", "depth", "wall_s")})
         return res
 
+    def simulate(self, module, cfg, seconds=180, depth=24, workers=4, seed=None):
+        """TLC random simulation (-simulate) of a configuration too large for exhaustive search, for a fixed wall-clock budget:
+        every invariant is evaluated in every state of every generated behaviour. The budget running out is the normal end;
+        a violated invariant is a design-level counterexample (infrastructure error here: it must be reproduced on real code)."""
+        d = tempfile.mkdtemp(prefix="sim-", dir=self.scratch)
+        for f in os.listdir(SPEC):
+            if f.endswith(".tla") or f.endswith(".cfg"):
+                shutil.copy(os.path.join(SPEC, f), d)
+        os.makedirs(os.path.join(d, "jtmp"), exist_ok=True)
+        e = dict(os.environ, JAVA_TOOL_OPTIONS="-Djava.io.tmpdir=" + os.path.join(d, "jtmp"))
+        cmd = ["timeout", str(seconds), "tlc", "-workers", str(workers), "-simulate", "num=100000000", "-depth", str(depth),
+               "-seed", str(seed if seed is not None else self.seed), "-metadir", os.path.join(d, "meta"), "-config", cfg, module + ".tla"]
+        t = time.time()
+        r = subprocess.run(cmd, cwd=d, env=e, stdout=subprocess.PIPE, stderr=subprocess.STDOUT, text=True)
+        out = r.stdout
+        if re.search(r"Invariant \S+ is violated|Error:", out):
+            raise Infra("simulation of %s/%s found a design-level counterexample:\n%s" % (module, cfg, out[-3000:]))
+        m = re.findall(r"Progress: (\d+) states checked, (\d+) traces generated", out)
+        states, traces = (int(m[-1][0]), int(m[-1][1])) if m else (0, 0)
+        if traces == 0:
+            raise Infra("simulation of %s/%s generated no behaviour:\n%s" % (module, cfg, out[-1500:]))
+        self.cov["tlc_runs"].append(dict(module=module, cfg=cfg, mode="simulate", states_checked=states, traces=traces, depth=depth,
+                                         wall_s=round(time.time() - t, 2)))
+        self.cov["states"] += states
+        shutil.rmtree(d, ignore_errors=True)
+        return dict(states=states, traces=traces)
+
     def apalache(self, module, cinit, inv, expect_error=False, timeout=600):
         """Apalache (symbolic, SMT): check `inv` in the initial states of spec/<module>.tla under constant initialiser `cinit`
         (--length=0). Returns True when the outcome is the expected one; anything else is infrastructure trouble."""
@@ -257,7 +284,8 @@ class Run:
         e = {"VERIF_TRACE": trace, "VERIF_OUT": out}
         if env:
             e.update(env)
-        res = self.tlc(module, cfg or module + ".cfg", env=e, workers=1, timeout=timeout, xss=xss, heap=heap)
+        # (an explicit heap: the tlc wrapper's default is 25% of the RAM per JVM, too much for 12-16 parallel shards)
+        res = self.tlc(module, cfg or module + ".cfg", env=e, workers=1, timeout=timeout, xss=xss, heap=heap or "3g")
         if not res["completed"] or not os.path.exists(out):
             raise Infra("trace validation %s did not complete:\n%s" % (module, res["out"][-3000:]))
         v = json.load(open(out))
